@@ -476,7 +476,7 @@ func runC19(c *eng.Ctx) {
 			if !(strings.HasPrefix(k, "query.") || strings.HasPrefix(k, "query/") || strings.HasPrefix(k, "flow.") || strings.HasPrefix(k, "internal/concurrent.")) {
 				continue
 			}
-			for _, s := range p.Sites(fn, eng.CallTo("builtin:recover")) {
+			for _, s := range p.SitesDirect(fn, eng.CallTo("builtin:recover")) {
 				top := topFunc(c, fn)
 				n++
 				c.Check(allowed[top], "recover@"+top, s.Instr, fn, "on the query execution path a panic is recovered only by pipeline.Execute and by the worker pool's task wrapper (both turn it into the stage's / pipeline's error); a recover anywhere below would let a panicking operator look successful", "recover() in "+top)
